@@ -96,6 +96,7 @@ type Exec struct {
 	lastIn     ssa.Instruction
 	uf         map[string]BoolV
 	timerFired bool
+	curPanic   *panicV // the panic that is unwinding while deferred calls run
 	loggers    map[string]*Cell
 	vipers     map[*Cell]*viper.Viper
 	hostDone   chan struct{}
@@ -106,6 +107,7 @@ type frame struct {
 	regs   []Val
 	idx    map[ssa.Value]int
 	defers []deferred
+	start  *ssa.BasicBlock // set when the frame resumes in its recover block
 	result Val
 }
 
@@ -752,19 +754,49 @@ func (x *Exec) call(fv FuncV, args []Val, site string) Val {
 	return x.runFrame(f)
 }
 
-// runFrame executes a frame; if a Go panic unwinds through it the deferred
-// calls are run (no recover() exists in the code under test).
+// runFrame executes a frame; if a Go panic unwinds through it the deferred calls are run with the
+// panic pending.  A deferred call that executes recover() ends the panic: the function then returns
+// through its recover block (named results) like a real Go function.
 func (x *Exec) runFrame(f *frame) (res Val) {
 	defer func() {
 		x.depth--
 		if r := recover(); r != nil {
-			if _, isGo := r.(panicV); isGo && len(f.defers) > 0 {
+			if pv, isGo := r.(panicV); isGo && len(f.defers) > 0 {
+				saved := x.curPanic
+				x.curPanic = &pv
 				x.runDefers(f)
+				recovered := x.curPanic == nil
+				x.curPanic = saved
+				if recovered {
+					if f.fn.Recover != nil {
+						f.start = f.fn.Recover
+						x.depth++
+						res = x.runFrame(f)
+					} else {
+						res = x.zeroResults(f.fn)
+					}
+					return
+				}
 			}
 			panic(r)
 		}
 	}()
 	return x.run(f)
+}
+
+func (x *Exec) zeroResults(fn *ssa.Function) Val {
+	rs := fn.Signature.Results()
+	switch rs.Len() {
+	case 0:
+		return nil
+	case 1:
+		return x.zero(rs.At(0).Type())
+	}
+	t := make(TupleV, rs.Len())
+	for i := range t {
+		t[i] = x.zero(rs.At(i).Type())
+	}
+	return t
 }
 
 func (x *Exec) runDefers(f *frame) {
@@ -822,6 +854,9 @@ func (x *Exec) storeCell(c *Cell, v Val, where func() string) {
 
 func (x *Exec) run(f *frame) Val {
 	blk := f.fn.Blocks[0]
+	if f.start != nil {
+		blk = f.start
+	}
 	var prev *ssa.BasicBlock
 	maxSteps := x.opts.MaxSteps
 	if maxSteps == 0 {
@@ -1346,6 +1381,14 @@ func (x *Exec) builtin(name string, args []Val, c *ssa.CallCommon, site string) 
 	case "panic":
 		panic(panicV{msg: "panic() at " + x.here(site), val: args[0]})
 	case "recover":
+		if x.curPanic != nil {
+			p := x.curPanic
+			x.curPanic = nil
+			if iv, ok := p.val.(IfaceV); ok && iv.T != nil {
+				return iv
+			}
+			return IfaceV{T: types.Typ[types.String], V: cstr(p.msg)}
+		}
 		return IfaceV{}
 	case "print", "println":
 		return nil
